@@ -198,5 +198,15 @@ pub fn ghist(case: &Value) -> Value {
 }
 
 fn main() {
-    tt_harness::dispatch(&[("topo", topo), ("kahn", kahn), ("hist", hist), ("ghist", ghist)]);
+    // the routines under test recurse to the depth of the graph: run them on a thread with a
+    // generous, environment-independent stack (long chains are legitimate inputs); an unbounded
+    // recursion still overflows it within milliseconds, the process aborts and the python side
+    // attributes the death to the case in flight (outcome PANIC, the graph is the replay)
+    let t = std::thread::Builder::new()
+        .stack_size(64 << 20)
+        .spawn(|| tt_harness::dispatch(&[("topo", topo), ("kahn", kahn), ("hist", hist), ("ghist", ghist)]))
+        .expect("spawn driver thread");
+    if t.join().is_err() {
+        std::process::exit(3);
+    }
 }
